@@ -10,6 +10,7 @@ COMMON_ASSUMPTIONS = [
 ]
 
 MIRI_BOXCAR = dict(name="boxcar", argv=["boxcar", "1", "20"], seeds=32)
+MIRI_BOXCAR_SCRIPTS = [dict(name=f"boxcar-script-{k}", argv=["boxcar-script", str(k)], seeds=6) for k in range(1, 9)]
 MIRI_NUCLEO = dict(name="nucleo", argv=["nucleo", "1", "16"], seeds=32)
 MIRI_EVENTLOOP = dict(name="eventloop", argv=["eventloop", "1", "40"], seeds=64, timeout=3000)
 MIRI_SORT = dict(name="sort", argv=["sort", "4100", "2"], seeds=2, timeout=1500)
@@ -49,7 +50,7 @@ PROPERTIES = {
                "count() is non-decreasing and >= pushes completed before it was invoked.",
         assumptions=COMMON_ASSUMPTIONS + ["indices above MAX_ENTRIES (where Location::of panics by design) are not generated"],
         probes_expected=["oracle.c08", "boxcar.cas_lost"],
-        miri=[MIRI_BOXCAR],
+        miri=[MIRI_BOXCAR] + MIRI_BOXCAR_SCRIPTS,
     ),
     "C09": dict(
         quick_runs=300_000, thorough_runs=4_000_000, level="exploration",
@@ -59,7 +60,7 @@ PROPERTIES = {
                "Entry::read, per-thread matcher cell) must be ordered after the last conflicting access.",
         assumptions=COMMON_ASSUMPTIONS + ["memory outside the hooked regions is race-checked only by engine B (Miri)"],
         probes_expected=["boxcar.cas_lost", "join.stolen"],
-        miri=[MIRI_BOXCAR, MIRI_NUCLEO, MIRI_SORT],
+        miri=[MIRI_BOXCAR, MIRI_NUCLEO, MIRI_SORT] + MIRI_BOXCAR_SCRIPTS,
     ),
     "C11": dict(
         quick_runs=300_000, thorough_runs=4_000_000, level="fault_enumeration",
